@@ -64,3 +64,37 @@ def c16(run):
         return {"bt0": i.get("bt") == 0, "empty_store": i.get("tail") == 0, "sfh": i.get("sfh", 0) > 0,
                 "blocks_faster_than_blockTime": faster, "new_head_beyond_local_head_plus_1": i.get("tail", 0) != 0 and nh > i.get("shead", 0) + 1}
     judge(run, cases, "TestTail", "SyncerTailTrace", ["C16_"], shards=8, pkg="synch", sig_fn=sig)
+
+
+@register("C19")
+def c19(run):
+    quick = run.tier == "quick"
+    rnd = random.Random(vlib.seed())
+    cases = []
+    for (rt, tp, steps) in ([(2, 6, 5)] if quick else [(2, 6, 6), (1, 3, 6), (3, 9, 5)]):
+        res = vlib.tlc(run.pid, "mc_%d_%d" % (rt, tp), "SyncerHead", "SyncerHead.cfg", export_key="C19", workers=1,
+                       constants={"RT": rt, "TP": tp, "MaxSteps": steps, "MaxClock": 4 * tp}, timeout=3000)
+        vlib.require_tlc_ok(res, "SyncerHead.tla RT=%d TP=%d" % (rt, tp))
+        run.add_tlc("SyncerHead.tla RT=%d TP=%d MaxSteps=%d (Monotone, RecentNoTraffic, StaleOneTrustedRequest, InitOnlyNonExpired)" % (rt, tp, steps), res)
+        cases.extend(res.exported)
+    total = len(cases)
+    cap_ = 2500 if quick else 30000
+    if total > cap_:
+        cases = rnd.sample(cases, cap_)
+    # variant: the same behaviours with the sync loop's range requests hanging (learned heads stay in the pending set)
+    held = [dict(c, holdSync=True) for c in cases if any(h["op"] in ("head", "heads") for h in c["hist"][1:])]
+    if quick:
+        held = rnd.sample(held, min(len(held), 1200))
+    cases = cases + held
+    for i, c in enumerate(cases):
+        c["id"] = i
+    run.cov["edges_exported"], run.cov["edges_replayed"] = total, len(cases)
+    run.cov["exhaustive"] = total <= len(cases)
+    for c in cases[:1] + cases[len(cases) // 2:len(cases) // 2 + 1]:
+        run.sample({"rt": c["rt"], "tp": c["tp"], "steps": [(h["op"], h["kind"] or h["d"], h["k"]) for h in c["hist"]]})
+    run.cov["rule"] = ("one behaviour per edge of SyncerHead.tla's state graph: sequences of clock advances (1, RT+1, TP+1 ticks), Head() calls with the trusted peers "
+                       "answering fresh / stale / expired / lower / failing, 2..3 concurrent callers with the getter gated, gossip heads; real Syncer over a real Store in "
+                       "virtual time; non-trivial = more than one step; distinct = distinct step sequence")
+    run.assumptions += ["one header per tick; recency/expiry boundaries are hit exactly because virtual time is frozen during a call",
+                        "the getter is scripted below the Exchange: verification against the trusted head is not re-done by it"]
+    judge(run, cases, "TestSyncerHead", "SyncerHeadTrace", ["C19_"], shards=8, pkg="synch")
